@@ -153,6 +153,23 @@ PROPS = {
         level_text='Every perturbation class is exercised hundreds (quick) to thousands (thorough) of times with randomised surrounding parts; acceptance and the converse replacement clause are asserted per document.',
         level_note='Trusted: the generator\'s knowledge of which perturbation is inconsistent (by construction), refsem/template.rs, transformed values as computed by the implementation (their arithmetic is C20\'s).',
     ),
+    'C11': dict(
+        engines=[('py', 'c11')],
+        cli=True,
+        technique='runtime monitoring of isolated child processes: panic capture (catch_unwind + hook), exit status / signal / CPU-time limit, deadlock detection by /proc sampling, with bisection of dying batches',
+        rule=('four generators, every case addressed by (seed, index): (1) schema-directed documents = valid skeleton for one of 8 languages (utilities, constraints, transform chains, rewriters, '
+              'string/object fix) with 0-3 typed wild values (invalid / pathological regexes, unknown kinds, extreme numbers, malformed An+B, bad variable names, junk types); (2) mutations of seed rules '
+              '(delete / rename / retype a key, splice sub-trees); (3) reference cycles through matches under all/any/not/has/inside/precedes/follows/stopBy/nthChild.ofRule/constraints/expandStart/expandEnd, '
+              'self-rewriting rewriters, inter-dependent transforms; (4) raw text (truncated documents, YAML anchors/aliases, random bytes). Each case is loaded as rule file and as utility file in a child '
+              'process (vmon c11) and, when accepted, scanned over 3-5 texts of its language (CombinedScan both modes, messages, edits). A dying child is narrowed to one input through its progress marker '
+              'and confirmed alone under a 10 s CPU limit. CLI part: 220 (quick) / 1500 (thorough) of those rule files through `ast-grep scan -r|--inline-rules [-j 4]` and 90 / 600 generated projects '
+              '(sgconfig variants, rule/util/test/snapshot files with wild values) through scan / test [-U]: no panic message, no signal, no CPU overrun, no deadlock (all threads sleeping with unchanged CPU time on three samples). '
+              'evaluations = documents + CLI invocations. Non-trivial = accepted documents that produced >= 1 match, documents rejected by a layer deeper than YAML syntax, CLI runs.'),
+        floor={'quick': 20000, 'thorough': 1000000},
+        level_text='Tens of thousands (quick) to millions (thorough) of hostile configurations executed in isolated children; crash-freedom is sampled, not exhausted.',
+        level_note=('Trusted: the process-level observations (exit status, signals, /proc task states, stderr). The harness build has overflow checks and debug assertions ON, the CLI is the plain release build; '
+                    'deadlock verdicts use logical progress (CPU time of all threads), a 120 s wall watchdog yields inconclusive.'),
+    ),
 }
 
 NOT_APPLICABLE = {}
